@@ -118,6 +118,15 @@ Definition strip_blank (s : str) : str := filter (fun c => negb (blank_char c)) 
 (* spacing tokens of a parsed document only hold blanks *)
 Definition blank_tok (t : tok) : bool := negb (is_spacing t) || forallb blank_char (text t).
 
+(* the run of blanks and newlines adjacent to the model IN THE PRINTED TEXT, in travel order: zero-width
+   tokens contribute no characters, so they are invisible; the run is made of the Newline/Whitespace
+   tokens up to the first token that prints something else (indentation is an Indent token / part of
+   a comment token: docs/special/indents.md, "indent is not considered spacing") *)
+Definition text_run (l : list tok) : list tok := sp_run (filter nonempty l).
+(* a zero-width mark (not Newline/Whitespace) splits that run: the token scan stops at it *)
+Definition split_by_mark (l : list tok) : bool :=
+  match skip_empty (sp_rest (skip_empty l)) with t :: _ => is_spacing t | [] => false end.
+
 (* gap shape E* S* E*: executable check used on every document the harness parses *)
 Definition gap_shape_b (g : list tok) : bool :=
   forallb is_empty (sp_rest (skip_empty g)).
